@@ -193,7 +193,11 @@ def run(tier, seed):
     rejects = trace.judge(recs, "narrow", "NarrowTrace", "NarrowTrace.cfg", "c19", res)
     for rid, clauses in sorted(rejects.items(), key=lambda kv: int(kv[0][1:])):
         m, r = meta[rid], byid[rid]
-        key = f"{m['fn']}:{r['exc']}:{'+'.join(sorted(clauses))}:{chash(m)}"
+        if "ZONE_IncompleteSimplex" in clauses:       # named pattern of the judge spec (DistanceJudge!TermFailing)
+            clauses = clauses - {"ZONE_IncompleteSimplex"}
+            key = "epa:incomplete-gjk-simplex"
+        else:
+            key = f"{m['fn']}:{r['exc']}:{'+'.join(sorted(clauses))}:{chash(m)}"
         res.violation(key, "+".join(sorted(clauses)), f"{m['fn']} exc={r['exc']} finite={r['finite']} calls={r['supportCalls']} scene={str(m)[:400]}",
                       {"meta": m, "record": r, "seed": seed})
     res.coverage["evaluations"] = len(recs)
